@@ -707,6 +707,51 @@ def run_census():
     return out
 
 
+def h_input_atoms_stay(eng, ff):
+    """with --nodebump --noopt no input heavy atom moves at all - also when the input spells an atom by a supported
+    alternate name (ILE CD for CD1, C-terminal OT1/OT2 ...), lists the residue's atoms in another order, or lacks atoms
+    that are rebuilt (selectors): every input heavy atom is in the final model at its input coordinates"""
+    from pdb2pqr import main
+
+    alias = eng.choice("alternate_spelling", 3)  # 0 none, 1 ILE CD, 2 C-terminal O/OXT as OT1/OT2
+    order = [None, "alphabetical", "reversed"][eng.choice("listing_order", 3)]
+    missing = eng.choice("atom_missing_from_input", 3)  # 0 none, 1 ILE CG2, 2 LEU CD2
+    ATOM_ORDER[0] = order
+    try:
+        lines = _peptide(["LEU", "ILE", "ALA"], 1)
+    finally:
+        ATOM_ORDER[0] = None
+    ref = fixtures.pristine_definition().map["CALA"].map["OXT"]
+    lines = [ln for ln in lines if not ln.startswith(("TER", "END"))]
+    lines.append(fixtures.atom_line(90, "OXT", "ALA", "A", 3, ref.x - 7.6, ref.y, ref.z))
+    out = []
+    for ln in lines:
+        name, num = ln[12:16].strip(), int(ln[22:26])
+        if (missing == 1 and num == 2 and name == "CG2") or (missing == 2 and num == 1 and name == "CD2"):
+            continue
+        if num == 2 and name == "CD1":
+            # off the template position (a rebuilt atom would land elsewhere), with or without the alternate spelling
+            ln = ln[:30] + f"{float(ln[30:38]) + 0.25:8.3f}{float(ln[38:46]) - 0.2:8.3f}" + ln[46:]
+            if alias == 1:
+                ln = ln[:12] + " CD " + ln[16:]
+        if num == 3 and name == "OXT":
+            ln = ln[:46] + f"{float(ln[46:54]) + 0.2:8.3f}" + ln[54:]
+        if alias == 2 and num == 3 and name in ("O", "OXT"):
+            ln = ln[:12] + (" OT1" if name == "O" else " OT2") + ln[16:]
+        out.append(ln)
+    inputs = [(ln[12:16].strip(), int(ln[22:26]), (float(ln[30:38]), float(ln[38:46]), float(ln[46:54]))) for ln in out if not ln[12:16].strip().startswith("H")]
+    try:
+        bm, defn = fixtures.prepared(out + ["TER", "END"])
+        args = fixtures.Args(ff=ff, pka_method=None, debump=False, opt=False)
+        main.non_trivial(args, bm, None, defn, False)
+    except (ValueError, KeyError) as e:
+        eng.check(True, "loud-failure-tolerated", note=f"{type(e).__name__}: {str(e)[:80]}")
+        return
+    final = [(a.residue.res_seq, (round(a.x, 3), round(a.y, 3), round(a.z, 3))) for a in bm.atoms if not a.is_hydrogen]
+    gone = [(n, num) for n, num, xyz in inputs if (num, tuple(round(v, 3) for v in xyz)) not in final]
+    eng.check(not gone, "input-heavy-atoms-stay-put", note=f"--nodebump --noopt, alternate spelling {alias}, order {order}, missing {missing}: input heavy atoms {gone} are not at their input coordinates in the final model")
+
+
 def obligations(tier, prop="C04"):
     obs = []
     residues = AMINO if tier == "thorough" else ["SER", "LEU", "ILE", "LYS", "PHE", "ASN", "HIS", "TYR", "MET", "THR"]
@@ -741,6 +786,8 @@ def obligations(tier, prop="C04"):
         obs.append(Obligation("lemma-rodrigues", c15.run_lemma, dict(body="rodrigues"), kind="lemma", group="lemma"))
         for ff, pka, lig in ((0, 0, 0), (1, 1, 0), (0, 1, 1)) if tier == "quick" else [(f, p, l) for f in (0, 1, 2) for p in (0, 1) for l in (0, 1)]:
             obs.append(Obligation(f"gating-ff{ff}-pka{pka}-lig{lig}", h_gating, dict(ff=ff, pka=pka, ligand=lig), group="gating", time_cap=1500, max_paths=200000))
+        for ff in ("amber",) if tier == "quick" else ("amber", "parse", "charmm"):
+            obs.append(Obligation(f"input-atoms-stay-{ff}", h_input_atoms_stay, dict(ff=ff), group="input-atoms", time_cap=1200))
         obs.append(Obligation("census-coordinate-writers", run_census, {}, kind="table", group="census"))
     return obs
 
